@@ -44,7 +44,7 @@ func c18QuickVectors() [][]int {
 
 func init() {
 	register(&Prop{
-		ID: "C18",
+		ID:   "C18",
 		Rule: "a table is generated from a vector of the rule-relevant features: editable ancestor (a wrapper div, <body> or <html>); table role in {none, presentation, grid, treegrid, landmark(main)}; descendant role in {none, row, gridcell, landmark(search)}; datatable=0; nested 1x1 table; body rows in {1,2,3,19,20}; columns in {1,2,4,5}; header structure in {none, caption, thead, tfoot, colgroup, col, th, th whose label sits in a <button>}, the last five also preceded by a text-less <caption>; cell feature in {none, abbr, headers, scope, lone <abbr> child}; summary; total cells in {12,10,11} at 3x4; embedded {none, embed, object, applet, iframe}; placed in a div, an article>section, a blockquote or a td of a layout table, after two long paragraphs. Observation: the table is data iff a <table> element occurs in Result.Node. Oracle: a reference implementation of the stated cascade. thorough = the full cross product of the grid (exhaustive); quick = base + all single settings + all pairs of settings of two different dimensions + a seeded sample of the grid. Every vector is a distinct non-trivial case.",
 		Assumptions: []string{
 			"landmark roles used are main/search (navigation/complementary are also 'unlikely' roles of the converter and would blind the observer)",
@@ -132,5 +132,7 @@ func runC18(c *Ctx, idx int) {
 		return
 	}
 	c.Sig(fmt.Sprint(d, f.Place))
-	c.Sample(func() any { return map[string]any{"features": f, "expected_data": want, "rule": rule, "html": trunc(src, 1200)} })
+	c.Sample(func() any {
+		return map[string]any{"features": f, "expected_data": want, "rule": rule, "html": trunc(src, 1200)}
+	})
 }
